@@ -123,12 +123,17 @@ def catalogue():
 def well_defined(names, cat):
     """A value-dependent stage is only judged on a stream of distinct truthy items."""
     dirty = False
+    linear = False  # the stream is an arithmetic progression (indices): its deltas are constant
     for nm in names:
         fl = cat[nm][3]
         if "vd" in fl and dirty:
             return False
         if "ni" in fl:
             dirty = True
+        if nm.startswith("deltas") and linear:
+            dirty = True
+        linear = nm.startswith("truthy indices") or (linear and nm in ("deep copy", "add scalar(+ 1)", "multiply scalar(* 2)",
+                                                                       "negate(N)", "halve(½)", "head remove(Ḣ)", "slice from(ȯ 2)"))
     return True
 
 
